@@ -7,10 +7,185 @@ import AkdModel.Label
 import AkdModel.Marker
 import AkdModel.Wire
 import AkdModel.Cfg
+import AkdModel.Show
+import AkdModel.Adv
 open Akd Akd.Wire
 
 structure DState where
-  dummy : Unit := ()
+  cfg : Cfg := Cfg.whatsappV1
+  dir : Dir := {}
+  /-- the `(epoch, root hash)` pairs publish returned, plus epoch 0 -/
+  roots : List (Nat × Dig) := []
+
+def parsePairs : List String → Option (List (Bytes × Bytes))
+  | [] => some []
+  | [_] => none
+  | a :: b :: rest => do
+    let x ← parseHex? a
+    let y ← parseHex? b
+    let r ← parsePairs rest
+    pure ((x, y) :: r)
+
+def parseElems : List String → Option (List (NodeLabel × Dig))
+  | [] => some []
+  | [_] => none
+  | a :: b :: rest => do
+    let x ← parseLabel? a
+    let y ← parseHex? b
+    let r ← parseElems rest
+    pure ((x, Dig.raw y) :: r)
+
+def parseParams (s : String) : Option HistoryParams :=
+  if s == "complete" then some .complete
+  else match s.splitOn ":" with
+    | ["recent", k] => k.toNat?.map .mostRecent
+    | _ => none
+
+def showErr {α} (f : α → String) : Except DErr α → String
+  | .ok a => f a
+  | .error .vrfMissing => "vrf-missing"
+  | .error .panic => "panic"
+  | .error _ => "err"
+
+def showTErr {α} (f : α → String) : Except Err α → String
+  | .ok a => f a
+  | .error _ => "err"
+
+def showV {α} (f : α → String) : Except VErr α → String
+  | .ok a => "ok " ++ f a
+  | .error .panic => "panic"
+  | .error _ => "rej"
+
+def dumpNodes (ns : NodeStore) : String :=
+  " ;; ".intercalate (Show.sortStrings (ns.db.map fun kr => Show.nodeRec kr.2))
+
+def dumpStates (d : Dir) : String :=
+  " ;; ".intercalate (Show.sortStrings (d.states.map fun s =>
+    s!"{hexOfBytes s.username}@{s.epoch} v{s.version} {showLabel s.label} {hexOfBytes s.value}"))
+
+def rootValue (st : DState) : Dig :=
+  match st.dir.azks with
+  | some a => match st.dir.nodes.getNode NodeLabel.root a.latestEpoch with
+    | .ok r => r.hash
+    | .error _ => .raw []
+  | none => .raw []
+
+def curRoot (st : DState) : Except Err Dig :=
+  match st.dir.azks with
+  | some a => st.dir.nodes.rootHash st.cfg a
+  | none => .error .notFound
+
+/-- operations of the layers above L0 -/
+def stepL1 (st : DState) (toks : List String) : Option (DState × String) :=
+  let c := st.cfg
+  match toks with
+  | ["reset", cfg] => do
+    let c ← Cfg.ofName? cfg
+    match Dir.init c {} with
+    | .ok d =>
+      let r := match d.azks with
+        | some a => match d.nodes.rootHash c a with | .ok h => [(0, h)] | .error _ => []
+        | none => []
+      some ({ cfg := c, dir := d, roots := r }, "ok")
+    | .error _ => some (st, "err")
+  | ["ck", k] => do
+    let k ← parseHex? k
+    some ({ st with dir := { st.dir with commitmentKey := .hBytes k } }, "ok")
+  | ["vrf", u, f, v, l] => do
+    let u ← parseHex? u
+    let v ← v.toNat?
+    let l ← parseLabel? l
+    let fresh ← if f == "F" then some true else if f == "S" then some false else none
+    some ({ st with dir := { st.dir with vrf := (⟨u, fresh, v⟩, l) :: st.dir.vrf } }, "ok")
+  | "dir.publish" :: rest => do
+    let ps ← parsePairs rest
+    match st.dir.publish c ps with
+    | .ok (d, ep, h) =>
+      let roots := if st.roots.any (fun r => r.1 = ep) then st.roots else st.roots ++ [(ep, h)]
+      some ({ st with dir := d, roots := roots }, s!"ok {ep} {Show.dig h}")
+    | .error .vrfMissing => some (st, "vrf-missing")
+    | .error _ => some (st, "err")
+  | ["dir.epochhash"] =>
+    some (st, showErr (fun (eh : Nat × Dig) => s!"{eh.1} {Show.dig eh.2}") (st.dir.epochHash c))
+  | ["dir.lookup", u] => do
+    let u ← parseHex? u
+    some (st, showErr (fun (r : LookupProof × Nat × Dig) => s!"{r.2.1} {Show.dig r.2.2} {Show.lookup r.1}") (st.dir.lookup c u))
+  | ["dir.history", u, p] => do
+    let u ← parseHex? u
+    let p ← parseParams p
+    some (st, showErr (fun (r : HistoryProof × Nat × Dig) => s!"{r.2.1} {Show.dig r.2.2} {Show.history r.1}") (st.dir.keyHistory c u p))
+  | ["dir.audit", s, e] => do
+    let s ← s.toNat?
+    let e ← e.toNat?
+    some (st, showErr Show.appendOnly (st.dir.audit c s e))
+  | ["dir.tombstone", u, e] => do
+    let u ← parseHex? u
+    let e ← e.toNat?
+    match st.dir.tombstone u e with
+    | .ok d => some ({ st with dir := d }, "ok")
+    | .error _ => some (st, "err")
+  | ["dir.dump"] =>
+    let az := match st.dir.azks with | some a => s!"azks({a.latestEpoch},{a.numNodes})" | none => "azks(-)"
+    some (st, s!"{az} ## {dumpNodes st.dir.nodes} ## {dumpStates st.dir}")
+  | ["dir.verify.lookup", u] => do
+    let u ← parseHex? u
+    match st.dir.lookup c u with
+    | .ok (p, ep, h) => some (st, showV Show.verifyResult (Verify.lookup c st.dir.vrf h ep u p))
+    | .error .vrfMissing => some (st, "vrf-missing")
+    | .error _ => some (st, "err")
+  | ["dir.verify.history", u, p, allow] => do
+    let u ← parseHex? u
+    let p ← parseParams p
+    let allow ← if allow == "allow" then some true else if allow == "default" then some false else none
+    match st.dir.keyHistory c u p with
+    | .ok (hp, ep, h) =>
+      some (st, showV (fun rs => " ".intercalate (rs.map Show.verifyResult)) (Verify.history c st.dir.vrf h ep u hp p allow))
+    | .error .vrfMissing => some (st, "vrf-missing")
+    | .error .panic => some (st, "panic")
+    | .error _ => some (st, "err")
+  | ["dir.verify.audit", s, e] => do
+    let s ← s.toNat?
+    let e ← e.toNat?
+    match st.dir.audit c s e with
+    | .ok ap =>
+      let hashes := (List.range (e - s + 1)).filterMap fun i => (st.roots.find? (fun r => r.1 = s + i)).map (·.2)
+      some (st, showV (fun _ => "") (Auditor.verify c hashes ap))
+    | .error _ => some (st, "err")
+  | "azks.insert" :: mode :: rest => do
+    let m ← if mode == "dir" then some InsertMode.directory else if mode == "aud" then some InsertMode.auditor else none
+    let els ← parseElems rest
+    let a ← st.dir.azks
+    match st.dir.nodes.batchInsert c m a els with
+    | .ok (ns, a') => some ({ st with dir := { st.dir with nodes := ns, azks := some a' } }, s!"ok {a'.latestEpoch} {a'.numNodes}")
+    | .error _ => some (st, "err")
+  | ["azks.root"] => some (st, showTErr Show.dig (curRoot st))
+  | ["azks.mem", l] => do
+    let l ← parseLabel? l
+    let a ← st.dir.azks
+    some (st, showTErr Show.membership (st.dir.nodes.membershipProof c a l))
+  | ["azks.nonmem", l] => do
+    let l ← parseLabel? l
+    let a ← st.dir.azks
+    some (st, showTErr Show.nonMembership (st.dir.nodes.nonMembershipProof c a l))
+  | "adv.mem" :: x :: edits => do
+    let x ← parseLabel? x
+    let es ← edits.mapM Adv.parseMemEdit?
+    let a ← st.dir.azks
+    match st.dir.nodes.membershipProof c a x, curRoot st with
+    | .ok p, .ok root =>
+      let p := es.foldl (Adv.applyMem (rootValue st)) p
+      some (st, if verifyMembership c root p then "acc" else "rej")
+    | _, _ => some (st, "err")
+  | "adv.nonmem" :: x :: edits => do
+    let x ← parseLabel? x
+    let es ← edits.mapM Adv.parseNonMemEdit?
+    let a ← st.dir.azks
+    match st.dir.nodes.nonMembershipProof c a x, curRoot st with
+    | .ok p, .ok root =>
+      let p := es.foldl (Adv.applyNonMem c (rootValue st)) p
+      some (st, if verifyNonMembership c root p then "acc" else "rej")
+    | _, _ => some (st, "err")
+  | _ => none
 
 def parseLabels (toks : List String) : Option (List NodeLabel) :=
   toks.mapM parseLabel?
@@ -83,7 +258,9 @@ def step (st : DState) (line : String) : DState × String :=
       | some (p, f) => (st, s!"{showNats p} {showNats f}")
       | none => (st, "panic")
     | _, _, _ => (st, "bad-op")
-  | _ => (st, "bad-op")
+  | _ => match stepL1 st toks with
+    | some r => r
+    | none => (st, "bad-op")
 
 partial def loop (h : IO.FS.Stream) (out : IO.FS.Stream) (st : DState) : IO Unit := do
   let line ← h.getLine
